@@ -21,7 +21,7 @@ static int v_attr_ok(void) { return 0; }
 #include "Source/Lib/Common/Codec/EbThreads.c"
 static void *body(void *c) { return c; }
 void harness(void) {
-    v_alloc_fail = 1;
+    v_arm_single_failure(2);
     EbHandle h = svt_create_thread(body, NULL);
     v_alloc_fail = 0;
     if (h) {
